@@ -1,6 +1,7 @@
 (* Run_C19.v — case records and evaluators for the C19 correspondence check: one CLI run over a
    directory tree. *)
-From PGV Require Import Base.Bytes Base.GoStr Spec.InjectSpec Model.Inject.
+From PGV Require Import Base.Bytes Base.GoStr.
+From PGV Require Export Spec.InjectSpec Model.Inject.   (* case files name their constructors *)
 
 Inductive mode :=
 | MFile (name : str)                              (* -f name *)
